@@ -10,6 +10,7 @@ import (
 	"strings"
 
 	"github.com/pilosa/pilosa/roaring"
+	"verifharness/cmd/c04/codec"
 	"verifharness/vh"
 )
 
@@ -18,7 +19,7 @@ type prop struct{}
 func (p *prop) Rule() string {
 	return "logged histories of 4-30 lines on one bitmap (slice or B-tree) with a bytes.Buffer as OpWriter: Add/Remove (one op per value), " +
 		"AddN/RemoveN (batches with duplicates and values already present/absent, so a[:changed] differs from a), ImportRoaringBits set/clear " +
-		"(payloads from the real writer, including ones that change nothing), re-encoding (snap) in between, decoding snapshot++log into a fresh " +
+		"(Pilosa-format payloads from the real writer and official-format payloads from the C04 reference encoder, with and without run containers, including ones that change nothing; the caller's buffer must stay untouched), re-encoding (snap) in between, decoding snapshot++log into a fresh " +
 		"bitmap of either collection (check) and continuing on the decoded bitmap (reopen); values from <=3 container keys x 10 low values. " +
 		"Non-trivial: at least one batch or import line and a later check/reopen"
 }
@@ -68,6 +69,46 @@ func payload(vals []uint64) []byte {
 	return buf.Bytes()
 }
 
+// officialPayload encodes vals (container keys < 65536) in the official Roaring format with the
+// C04 reference encoder; mode 0 = arrays/bitmaps only, 1 = run containers where smaller, 2 = run
+// containers everywhere.
+func officialPayload(mode int, vals []uint64) ([]byte, bool) {
+	want := sortedSet(vals)
+	var es []codec.Entry
+	for _, v := range want {
+		k := v >> 16
+		if k >= 65536 {
+			return nil, false
+		}
+		if len(es) == 0 || es[len(es)-1].Key != k {
+			es = append(es, codec.Entry{Key: k, Typ: 'a'})
+		}
+		es[len(es)-1].Vals = append(es[len(es)-1].Vals, uint16(v))
+	}
+	return codec.OfficialEncode(mode, es), true
+}
+
+// importLine: half of the payloads are official-format (with and without run containers) when
+// the keys allow it, the rest Pilosa-format; some are dense ranges (run containers in either format).
+func (g *gen) importLine(mode string) string {
+	vs := g.vals(1, 6)
+	if g.r.Chance(1, 4) {
+		// a range: becomes a run container
+		v := g.val()
+		n := uint64(g.r.Range(2, 9))
+		vs = nil
+		for x := uint64(0); x < n && (v&0xFFFF)+x < 65536; x++ {
+			vs = append(vs, v+x)
+		}
+	}
+	if g.r.Chance(1, 2) {
+		if data, ok := officialPayload(g.r.Intn(3), vs); ok {
+			return "import " + mode + " " + vh.CSV(vs) + " " + hex.EncodeToString(data)
+		}
+	}
+	return "import " + mode + " " + vh.CSV(vs) + " " + hex.EncodeToString(payload(vs))
+}
+
 func (g *gen) line() string {
 	r := g.r
 	switch w := r.Intn(100); {
@@ -82,11 +123,9 @@ func (g *gen) line() string {
 	case w < 54:
 		return "removen " + spaced(g.vals(1, 7))
 	case w < 63:
-		vs := g.vals(1, 6)
-		return "import set " + vh.CSV(vs) + " " + hex.EncodeToString(payload(vs))
+		return g.importLine("set")
 	case w < 72:
-		vs := g.vals(1, 6)
-		return "import clear " + vh.CSV(vs) + " " + hex.EncodeToString(payload(vs))
+		return g.importLine("clear")
 	case w < 80:
 		return "snap"
 	case w < 93:
@@ -287,9 +326,25 @@ func (s *state) exec(l string) string {
 			return "err:payload-mismatch"
 		}
 		s.keep = append(s.keep, data)
+		orig := append([]byte(nil), data...)
+		format := "official"
+		if len(data) >= 2 && data[0] == 0x3c && data[1] == 0x30 {
+			format = "pilosa"
+		}
+		runs := false
+		for _, ci := range chk.Info().Containers {
+			if ci.Type == "run" {
+				runs = true
+			}
+		}
+		vh.Count(fmt.Sprintf("payload:%s:runs=%v", format, runs))
 		n, _, err := b.ImportRoaringBits(data, ws[1] == "clear", true, 0)
 		if err != nil {
 			return "err:import"
+		}
+		// the caller's buffer is also what the op log received: it must not have been touched
+		if !bytes.Equal(orig, data) {
+			return "err:payload-buffer-modified " + s.tail(before)
 		}
 		if n == 0 {
 			vh.Count("import-changes-nothing")
